@@ -357,6 +357,17 @@ PROPS = {
                  "ModuleIterator / ComponentIterator add_local forwarders (one-line delegations to Functions::add_local)"],
         "design_ref": "DESIGN.md §4 V1, §5 C14",
     },
+    "C27": {
+        "title": "Component round trip preserves structure at any nesting depth",
+        "units": ["V10_parse"],
+        "obligations": ["V10_parse.track_nesting.*", "V10_parse.fn:Component::track_nesting", "V10_parse.parse_module_section.*", "V10_parse.fn:parse_module_section",
+                        "V10_parse.parse_component_section.*", "V10_parse.fn:Component::parse_component_section", "V10_parse.add_to_sections.*", "V10_parse.fn:Component::add_to_sections"],
+        "glue": ["only the PARSE half, and of it only the nesting bookkeeping: every other arm of Component::parse_comp (imports, exports, types, instances, aliases, canonical functions, names: iterator-adapter code over wasmparser readers) and the whole of Component::encode_comp (section replay, 650 lines) are not under contract",
+                 "that the payload stream of wasmparser's parse_all contains the payloads of nested modules / components inline, each closed by its own End, is a TRUSTED property of the reader",
+                 "rule R16: the regions are cut out of parse_comp by text anchors; a `continue` in the head region is written as a `return` of the synthetic function"],
+        "design_ref": "DESIGN.md §5 C27",
+        "level_text": "Partial (parse side, nesting only): inside nested content every opener of a module / component deepens the tracked nesting by one and every End ends one level, at any depth, and such payloads are left to the recursive call; an own child deepens it by exactly one and is parsed from exactly its own byte range (or reported if that range leaves the input); the run-length record of the section order denotes the items in stream order. After fix F24 (content nested three levels deep was parsed twice).",
+    },
 }
 
 HOOK_COMMITS = ["6108179", "dd5c5ea", "537dc3a", "193503a"]
@@ -364,7 +375,6 @@ HOOK_COMMITS = ["6108179", "dd5c5ea", "537dc3a", "193503a"]
 NOT_APPLICABLE = {
     "C16": "behavioural equivalence of original and instrumented module needs a WebAssembly execution semantics and a simulation proof; neither installed deductive verifier has one, and a syntactic contract cannot express it",
     "C23": "the side-effect report is assembled inside encode_internal and in closure-based add_injections that push into HashMap<InjectType, Vec<_>> through the entry API: outside Verus' supported subset, and a non-empty HashMap is out of Kani's reach (>100 s per operation, memory blow-up)",
-    "C27": "the nesting-stack logic and section replay are inline in Component::parse_comp / encode_comp (wasmparser payload streams, recursion over nested components); no separately contractable function decides anything the statement says",
 }
 
 for _p in PROPS.values():
